@@ -25,8 +25,8 @@ LEVEL_TEXT = ("Proof (F/M), partial for one clause: for every random source, exi
               "(tag_simple_names); deserialize(serialize s) = s for every well-formed schema over the modelled fields (schema_roundtrip: columns with name, "
               "tag, type, nullability, pk flag, auto-increment, default / generated / on-update expressions, virtual, comment, hidden; pk ordinals; "
               "indexes by column position; checks; collation; comment; row size; keyless marker columns). Pairwise distinctness of tags within a root is "
-              "proved for DDL sequences that never re-create a table still present in HEAD (tags_distinct_partial) and REFUTED in general "
-              "(tags_distinct_refuted: ADD COLUMN ignores HEAD's tags, CREATE TABLE re-uses them). Tied to the code by generated DDL scripts run on two "
+              "proved per statement for CREATE TABLE of a table HEAD does not have and for ADD COLUMN (tags_distinct_partial, addcol_tag_fresh) and REFUTED "
+              "in general (tags_distinct_refuted: ADD COLUMN ignores HEAD's tags, CREATE TABLE re-uses them; the witness replays on the real code). Tied to the code by generated DDL scripts run on two "
               "branches and two repositories, the stored schemas read back through the doltdb API and pushed through the real SerializeSchema / "
               "DeserializeSchema, compared field by field inside Coq.")
 LEVEL_NOTE = ("Trusted: Coq kernel, Go harness (script runner, seed-key derivation with the real doltdb.GetExistingColumns, candidate enumeration by "
@@ -37,7 +37,11 @@ LEVEL_NOTE = ("Trusted: Coq kernel, Go harness (script runner, seed-key derivati
               "engine's translation of DDL text to column lists and kinds (reported by the harness), Unicode case folding of names (ASCII names "
               "generated), fulltext / vector index properties, foreign keys (stored outside the schema message).")
 THEOREMS = ["tag_fresh", "tag_below_reserved", "auto_tag_same_set", "tag_simple_names", "same_ddl_same_tags", "tags_distinct_partial",
-            "tags_distinct_refuted", "schema_roundtrip", "sschema_eqb_eq", "reserved_tag_min_pinned"]
+            "addcol_tag_fresh", "tags_distinct_refuted", "schema_roundtrip", "sschema_eqb_eq", "reserved_tag_min_pinned"]
+EXPLANATION = ("Open findings replayed on every run (known_findings.json, witnesses in known_witness_cases with a passing control each): spurious schema "
+               "conflicts / merge errors between branches that ran the same DDL (CHECK on a column with upper-case letters; two indexes over the same "
+               "columns; keyless table with ON UPDATE and no DEFAULT), a generated expression stored with an unquoted table qualifier after CREATE INDEX, "
+               "and the implementation replay of tags_distinct_refuted (duplicate tag after DROP TABLE / ADD COLUMN / re-CREATE).")
 REFUTED = ["tags_distinct_refuted"]
 RULE = ("DDL scripts: 1-3 CREATE TABLE (2-7 columns over every reachable typeinfo family with parameters, NOT NULL / DEFAULT / COMMENT / ON UPDATE / "
         "AUTO_INCREMENT / generated columns / column collations, multi-column primary keys in non-declaration order or keyless, secondary / unique / "
@@ -356,6 +360,19 @@ def known_witness_cases():
             "tcoll": None, "autoinc": False}}],
             "branch": [{"op": "addcol", "table": "t", "col": "x", "q": "alter table t add column x int",
                         "meta": {"cols": [{"name": "x", "ty": "int", "cls": "int"}], "positioned": False}}]})
+    # open finding schema:generated-expr-unquoted-table-qualifier-unparseable, and its control (a table name that needs no quoting)
+    for tn in ("t-1", "t1"):
+        out.append({"main": [{"op": "create", "table": tn, "q": "create table `%s` (a int, k int as (a + 1) stored, c1 int not null, primary key (c1))" % tn, "meta": {
+            "cols": [{"name": "a", "ty": "int", "cls": "int"}, {"name": "k", "ty": "int", "cls": "int", "gen": True}, {"name": "c1", "ty": "int", "cls": "int"}],
+            "pk": ["c1"], "idx": [], "checks": 0, "tcoll": None, "autoinc": False}},
+            {"op": "other", "table": tn, "q": "create unique index ix on `%s` (c1)" % tn, "meta": {"idx": "unique"}}], "branch": []})
+    # open finding merge:keyless-on-update-without-default-merge-error, and its control (keyed table)
+    for pk in ("", " primary key"):
+        out.append({"main": [{"op": "create", "table": "t", "q": "create table t (a int%s, ts timestamp on update current_timestamp)" % pk, "meta": {
+            "cols": [{"name": "a", "ty": "int", "cls": "int"}, {"name": "ts", "ty": "timestamp", "cls": "dt", "onupd": True}],
+            "pk": ["a"] if pk else [], "idx": [], "checks": 0, "tcoll": None, "autoinc": False}}],
+            "branch": [{"op": "addcol", "table": "t", "col": "x", "q": "alter table t add column x int",
+                        "meta": {"cols": [{"name": "x", "ty": "int", "cls": "int"}], "positioned": False}}]})
     # open finding tags:duplicate-tag-after-drop-addcol-recreate = the witness of Proofs.v tags_distinct_refuted replayed on the implementation.
     # x16536 was found with the harness runner c37find: the first tag AutoGenerateTag draws for (v, [IntKind], x16536, IntKind) is 13438,
     # the tag of t.a.  (If the seeding ever changes the case simply stops colliding.)
@@ -372,7 +389,7 @@ def known_witness_cases():
 
 
 def gen_cases(rng, tier):
-    n = 140 if tier == "quick" else 3000
+    n = 100 if tier == "quick" else 3000
     cases = fixed_cases()
     seen = set()
     while len(cases) < n:
@@ -605,9 +622,39 @@ def _upper_check_conflict(case, out):  # noqa: C901
     return True
 
 
-def _all_else_fine(o, want_merge):
-    return (merge_class(o) == want_merge and not o["merge"].get("err") and o["b1"] == o["b2"] == o["envb"] == o["merged"]
-            and all(rt_flag(o, r) and r["stored"] == r["back"] for r in o["rt"]))
+def _all_else_fine(o, want_merge, rt=True):
+    return (merge_class(o) == want_merge and (want_merge == 2 or not o["merge"].get("err")) and o["b1"] == o["b2"] == o["envb"] == o["merged"]
+            and all((rt_flag(o, r) or not rt) and r["stored"] == r["back"] and r["equal"] and not r["err"] for r in o["rt"]))
+
+
+def _gen_expr_unparseable(case, out):
+    """everything agrees, merges and round-trips; the only complaint is SHOW CREATE TABLE failing with "Invalid default value" on a table
+    whose name needs quoting and whose stored default / generated expression carries that name as an unquoted qualifier"""
+    o = out.get("obs")
+    if not o or not _all_else_fine(o, 0, rt=False):
+        return False
+    bad = [r for r in o["rt"] if not rt_flag(o, r)]
+    if not bad:
+        return False
+    for r in bad:
+        tn = r["table"]
+        if not r["create"].startswith("ERR Invalid default value for") or tn.isalnum():
+            return False
+        if not any((tn + ".") in c["gen"] or (tn + ".") in c["default"] or (tn.lower() + ".") in c["gen"] or (tn.lower() + ".") in c["default"]
+                   for c in r["stored"]["cols"]):
+            return False
+    return True
+
+
+def _keyless_onupdate_merge_error(case, out):
+    """everything agrees and round-trips; the merge of the two identical branches fails with "unable to find default or generated
+    expression" and a keyless table has a column with ON UPDATE but no DEFAULT"""
+    o = out.get("obs")
+    if not o or not _all_else_fine(o, 2):
+        return False
+    if o["merge"].get("err") != "unable to find default or generated expression":
+        return False
+    return any(not r["stored"]["pkord"] and any(c["onupd"] and not c["default"] for c in r["stored"]["cols"]) for r in o["rt"])
 
 
 def _dup_index_conflict(case, out):
@@ -676,4 +723,8 @@ def match_known(finding, case, out):
         return _dup_index_conflict(case, out)
     if k == "tags:duplicate-tag-after-drop-addcol-recreate":
         return _dup_tag_after_recreate(case, out)
+    if k == "schema:generated-expr-unquoted-table-qualifier-unparseable":
+        return _gen_expr_unparseable(case, out)
+    if k == "merge:keyless-on-update-without-default-merge-error":
+        return _keyless_onupdate_merge_error(case, out)
     return False
